@@ -78,9 +78,14 @@ type c11Config struct {
 	List      []int    `json:"list"` // nil: keep the fingerprint's own list
 	Suppress  []uint64 `json:"suppress"`
 	Randomize bool     `json:"randomize"`
-	SCIDLen   int      `json:"scid"` // -1: keep
+	SCIDLen   int      `json:"scid"`         // -1: keep
 	VN        bool     `json:"vn,omitempty"` // the first Initial is answered with Version Negotiation: the ClientHello of the re-created connection is judged
-	Seed      uint64   `json:"seed"`
+	// FirstQuery places the caller's TransportParameterIDs() calls among the three dials on the
+	// ONE spec value: the spec is queried in every gap from this one on (gap g = after g dials;
+	// 0: before the first dial, as the documentation suggests, ... 3: only after the last dial,
+	// i.e. every dial works on a spec value that was never queried).
+	FirstQuery int    `json:"first_query,omitempty"`
+	Seed       uint64 `json:"seed"`
 }
 
 func (c c11Config) id() string {
@@ -96,7 +101,7 @@ func (c c11Config) id() string {
 	if c.VN {
 		vn = " after-version-negotiation"
 	}
-	return fmt.Sprintf("%s list=%s suppress=%v randomize=%v scid=%d%s", c11Bases[c.Base].Name, ls, c.Suppress, c.Randomize, c.SCIDLen, vn)
+	return fmt.Sprintf("%s list=%s suppress=%v randomize=%v scid=%d%s ids-queried-from-gap=%d", c11Bases[c.Base].Name, ls, c.Suppress, c.Randomize, c.SCIDLen, vn, c.FirstQuery)
 }
 
 func c11QTP(s *quic.QUICSpec) *tls.QUICTransportParametersExtension {
@@ -218,14 +223,49 @@ func c11Standalone(chs *tls.ClientHelloSpec) (*wireobs.ClientHello, error) {
 func c11Run(t *testing.T, cfg c11Config) c11Outcome {
 	var out c11Outcome
 	var spec *quic.QUICSpec
-	var ids []uint64
+	var own tls.TransportParameters // the list as the caller wrote it (own slice, same parameter objects)
 	var expect []c11TP
-	sim.WithSeed(t, cfg.Seed*7919+uint64(len(cfg.id())), func() {
-		spec = cfg.spec() // ONE spec value, reused by the three dials
-		own := append(tls.TransportParameters{}, c11QTP(spec).TransportParameters...)
-		ids = spec.TransportParameterIDs() // pins GREASE ids, as documented
-		expect = c11Expected(own, cfg.Suppress)
+	haveExpect := false
+	specSeed := cfg.Seed*7919 + uint64(len(cfg.id()))
+	sim.WithSeed(t, specSeed, func() {
+		spec = cfg.spec() // ONE spec value, reused by the three dials and every query
+		own = append(tls.TransportParameters{}, c11QTP(spec).TransportParameters...)
 	})
+	// the expected wire list is read off the caller's parameter objects the first time it is
+	// needed: after the first TransportParameterIDs() call or after the first dial, whichever the
+	// configuration places first (either one pins the GREASE identifiers and values, which are
+	// drawn on first use)
+	needExpect := func() {
+		if haveExpect {
+			return
+		}
+		sim.WithSeed(t, specSeed+1, func() { expect = c11Expected(own, cfg.Suppress) })
+		haveExpect = true
+	}
+	type c11Report struct {
+		gap int
+		ids []uint64
+	}
+	var reports []c11Report  // what TransportParameterIDs() returned, in call order
+	var wireCanon [][]uint64 // canonicalised wire ids of the dials so far
+	// query calls TransportParameterIDs() in the gap after `gap` dials and judges the report
+	// against what a fingerprinter canonicalising the wire saw on every dial so far
+	query := func(gap int) {
+		if out.fail != nil || gap < cfg.FirstQuery {
+			return
+		}
+		var r []uint64
+		sim.WithSeed(t, specSeed+2+uint64(gap), func() { r = spec.TransportParameterIDs() })
+		needExpect()
+		reports = append(reports, c11Report{gap, r})
+		for d, wc := range wireCanon {
+			if !slices.Equal(wc, r) {
+				out.fail = explore.Failf("tp-ids-report", "%s: QUICSpec.TransportParameterIDs() called after %d dial(s) = %v, canonicalised wire ids of dial %d = %v", cfg.id(), gap, r, d+1, wc)
+				return
+			}
+		}
+	}
+	query(0)
 	var wireOrders []string
 	var firstCH *wireobs.ClientHello
 	for dial := 1; dial <= 3 && out.fail == nil; dial++ {
@@ -301,6 +341,7 @@ func c11Run(t *testing.T, cfg c11Config) c11Outcome {
 			break
 		}
 		scid := obs[0].Pkt.SCID
+		needExpect()
 		// ---- the wire list against the spec list
 		var wireIDs []uint64
 		var order []string
@@ -352,13 +393,21 @@ func c11Run(t *testing.T, cfg c11Config) c11Outcome {
 			break
 		}
 		// ---- the ID list the spec reports against what a fingerprinter canonicalises
-		if !slices.Equal(c11Canon(wireIDs), ids) {
-			fail("tp-ids-report", "QUICSpec.TransportParameterIDs() = %v, canonicalised wire ids = %v", ids, c11Canon(wireIDs))
+		wc := c11Canon(wireIDs)
+		for _, r := range reports {
+			if !slices.Equal(wc, r.ids) {
+				fail("tp-ids-report", "QUICSpec.TransportParameterIDs() called after %d dial(s) = %v, canonicalised wire ids = %v", r.gap, r.ids, wc)
+				break
+			}
+		}
+		if out.fail != nil {
 			break
 		}
+		wireCanon = append(wireCanon, wc)
 		if firstCH == nil {
 			firstCH = ch
 		}
+		query(dial)
 	}
 	if out.fail == nil && firstCH != nil {
 		// ---- ClientHello against what uTLS emits for the same ClientHelloSpec
@@ -402,7 +451,7 @@ func c11Run(t *testing.T, cfg c11Config) c11Outcome {
 			out.fail = explore.Failf("tp-not-reshuffled", "%s: the three dials put the parameters in the same order %s although randomisation is on", cfg.id(), wireOrders[0])
 		}
 	}
-	out.class = fmt.Sprintf("n=%d rand=%v sup=%d", len(expect), cfg.Randomize, len(cfg.Suppress))
+	out.class = fmt.Sprintf("n=%d rand=%v sup=%d first-query-gap=%d", len(expect), cfg.Randomize, len(cfg.Suppress), cfg.FirstQuery)
 	return out
 }
 
@@ -567,10 +616,26 @@ func TestVerifC11(t *testing.T) {
 				}
 			}
 		}
+		// (c) the placements of the caller's TransportParameterIDs() calls among the three dials on
+		// the one spec value (see c11Config.FirstQuery): all four on the built-in lists (a); on the
+		// generated lists (b) the two extremes - queried before the first dial / never queried
+		// before a dial - and, in thorough, all four on the lists of <= 3 entries
+		base := cfgs
+		cfgs = nil
+		for _, c := range base {
+			qs := []int{0, 1, 2, 3}
+			if c.List != nil && !(e.Thorough() && len(c.List) <= 3) {
+				qs = []int{0, 3}
+			}
+			for _, q := range qs {
+				c.FirstQuery = q
+				cfgs = append(cfgs, c)
+			}
+		}
 		for i := range cfgs {
 			cfgs[i].Seed = seed + uint64(i)*3
 		}
-		return cfgs, fmt.Sprintf("(a) 7 built-in fingerprints x {no suppression, every single present id and every pair (triples in thorough), absent id, GREASE twice} x randomisation on/off, plus SCID lengths 0/8 with randomisation; (b) every transport parameter list of <= %d entries over %d atoms (standard, fake raw, GREASE with random id and length, fake with a GREASE id, duplicate id, empty initial_source_connection_id) x 5 suppression sets (none, every GREASE, a standard id, the exact id of one GREASE-shaped parameter, an absent GREASE-shaped id) x randomisation on/off on %d bases; 3 dials on ONE reused spec value each", maxLen, len(c11Atoms), len(listBases))
+		return cfgs, fmt.Sprintf("(a) 7 built-in fingerprints x {no suppression, every single present id and every pair (triples in thorough), absent id, GREASE twice} x randomisation on/off, plus SCID lengths 0/8 with randomisation; (b) every transport parameter list of <= %d entries over %d atoms (standard, fake raw, GREASE with random id and length, fake with a GREASE id, duplicate id, empty initial_source_connection_id) x 5 suppression sets (none, every GREASE, a standard id, the exact id of one GREASE-shaped parameter, an absent GREASE-shaped id) x randomisation on/off on %d bases; 3 dials on ONE reused spec value each x placements of the caller's TransportParameterIDs() queries (in every gap from gap g on, g dials done: g = 0..3 on (a) [and on the lists of <= 3 entries of (b) in thorough], g = 0 and 3 on (b): before the first dial ... only after the last one; every report judged against the canonicalised wire ids of every dial)", maxLen, len(c11Atoms), len(listBases))
 	}
 	wirePart.Run = func(e explore.Env) *explore.Report {
 		cfgs, rule := mk(e)
